@@ -23,7 +23,7 @@ def one(path):
     finally:
         shutil.rmtree(d,ignore_errors=True)
 files=[os.path.join(V,'selftest/mutants',f) for f in sorted(os.listdir(V+'/selftest/mutants')) if f.startswith('small') and (len(sys.argv)<2 or any(a in f for a in sys.argv[1:]))]
-with concurrent.futures.ThreadPoolExecutor(max_workers=4) as ex:
+with concurrent.futures.ThreadPoolExecutor(max_workers=10) as ex:
     for path,prop,rules in ex.map(one,files):
         name=os.path.basename(path)[:-6]
         if rules is None: print('%-60s PATCH-FAILS'%name); continue
